@@ -267,7 +267,7 @@ def minimise(prop, plan, oracle, jobs, max_runs=400, max_s=120):
 
 
 def write_replay(pid, plan, violation, digest, meta):
-    d = os.path.join(core.VERIF_DIR, "replays")
+    d = os.environ.get("QSIM_REPLAY_DIR") or os.path.join(core.VERIF_DIR, "replays")
     os.makedirs(d, exist_ok=True)
     name = f"{pid}-{plan.get('run_seed', 0):016x}-{violation['oracle']}.json"
     name = re.sub(r"[^A-Za-z0-9_.\-]", "_", name)
@@ -279,7 +279,7 @@ def write_replay(pid, plan, violation, digest, meta):
 
 
 def write_evidence(prop, tier, master, total, n_viol, known_seen, extra=None):
-    d = os.path.join(core.VERIF_DIR, "evidence")
+    d = os.environ.get("QSIM_EVIDENCE_DIR") or os.path.join(core.VERIF_DIR, "evidence")
     os.makedirs(d, exist_ok=True)
     wall_s = max(total.get("wall_s", 0.0), 1e-9)
     cov = {
